@@ -237,6 +237,51 @@ def real_patterns_match_iff_all_expected_values_are_reported(kind, n):
                 H.And(matcher.has_match() == want, (matcher.matching_variant is variant) == want))
 
 
+# the identification service is looked up among the services the candidate offers *after inheritance*: a service the
+# candidate defines itself overrides an inherited one of the same name, also one from an ECU-SHARED-DATA layer
+from contracts import hierarchy as HY  # noqa: E402
+
+
+@harness(props=["C14"], strength="B", family=lambda t, s: [{"parent_kind": k} for k in ("SD", "BV")],
+         bound="one ECU variant with one parent layer (shared data or base variant) that defines an identification "
+         "service of the same name; the reported value symbolic over a 2-value alphabet",
+         functions=[VariantMatcher.request_loop, MatchingParameter.get_ident_service,
+                    HY.HierarchyElement._compute_available_objects], covers=["done"])
+def candidate_uses_its_own_identification_service(parent_kind):
+    """the request issued for a candidate is the one of the identification service the candidate itself defines, its
+    answer is decoded with that service's responses"""
+    own = IdentService(b"\x22\x01")
+    own.short_name = "ident"
+    inherited = IdentService(b"\x22\x02")
+    inherited.short_name = "ident"
+    reported = H.pick("value_reported_to_the_own_request", ["A", "B"])
+    own._positive_responses = [ValueResponse(reported)]
+    inherited._positive_responses = [ValueResponse("A")]
+    parent = HY.GhostLayer("parent", parent_kind)
+    parent.local.append(inherited)
+    variant = EcuVariant.__new__(EcuVariant)
+    variant.diag_layer_raw = HY.GhostRaw("candidate", "EV")
+    variant.diag_layer_raw.local.append(own)
+    variant.diag_layer_raw.parent_refs.append(HY.GhostParentRef(parent, []))
+    variant.diag_layer_raw.ecu_variant_patterns = [EcuVariantPattern(matching_parameters=[
+        MatchingParameter(expected_value="A", diag_comm_snref="ident", out_param_if_snref="id",
+                          out_param_if_snpathref=None)])]
+    variant._diag_services = NamedItemList(variant._compute_available_objects(HY._local, HY._not_inherited))
+    variant._global_negative_responses = []
+    matcher = VariantMatcher([variant], use_cache=False)
+    issued = []
+
+    def ecu_step(item):
+        issued.append(bytes(item[1]))
+        matcher.evaluate(b"\x62\x01")
+
+    H.consume(matcher.request_loop, ecu_step)
+    H.cover("done")
+    H.check("C14:the-candidates-own-identification-request-is-issued", issued == [b"\x22\x01"])
+    H.check("C14:candidate-reported-iff-its-own-service-reports-the-expected-value",
+            matcher.has_match() == (reported == "A"))
+
+
 VALUES = {
     "plain-str": ({"p": "abc"}, "p", None, "abc", True),
     "plain-str-mismatch": ({"p": "abd"}, "p", None, "abc", False),
